@@ -145,3 +145,15 @@ Theorem C17_key_scheme_roundtrip :
 Proof. exact key_scheme_roundtrip. Qed.
 Print Assumptions C17_key_scheme_roundtrip.
 
+
+(* same mesh class: each of the eight supported classes is written as a meshio cell type that from_meshio maps back to
+   the same class (finite, enumerated on the regenerated TYPE_MESH_MAPPING / MESH_TYPE_MAPPING) *)
+Theorem C17_class_roundtrip :
+  forall c, In c supported_classes ->
+    exists ty, lookup c gen_type_of_class = Some ty /\ lookup ty gen_class_of_type = Some c.
+Proof.
+  intros c Hc. destruct class_type_roundtrip as [H _]. rewrite forallb_forall in H. specialize (H c Hc).
+  destruct (lookup c gen_type_of_class) as [ty|]; [|discriminate]. exists ty. split; [reflexivity|].
+  destruct (lookup ty gen_class_of_type) as [c'|]; [|discriminate]. apply String.eqb_eq in H. subst. reflexivity.
+Qed.
+Print Assumptions C17_class_roundtrip.
